@@ -38,6 +38,10 @@ func formatCommentCharacter(comment string, char rune) string {
 			}
 			bs[i] = char
 		}
+		// A single "#" must become "//": a lone slash does not start a comment
+		if char == '/' && (len(bs) < 2 || bs[1] != '/') {
+			bs = append([]rune{'/'}, bs...)
+		}
 	// Slash-style comment
 	case '/':
 		// Check inline comment like /* ... */ and return without replacing if so
